@@ -150,7 +150,7 @@ def run():
         tot += 1
         rej += 1 if replay(d, rng) else 0
     chk.extra["binding_selftest"] = dict(corrupted=tot, rejected=rej)
-    if rej != tot:
+    if rej != tot and not chk.violations:
         raise common.MachineryError("replay accepted %d corrupted behaviours" % (tot - rej))
     chk.sample(dict(behaviour=beh[0]))
     chk.rule = ("ProvLedger.tla model-checked (AppendOnly); behaviours from tlc -simulate (depth 8) over nine recording operations x both facades x "
